@@ -189,59 +189,81 @@ def stressParams : Params :=
 
 /-- one request from entry to return, on Host object `i % 2`; returns the new state and how the
     handler returned -/
-def stressReq (s : State) (cur : CfgId) (seed i : Nat) : Option (State × String) := do
-  let s1 ← step s (.newReq cur false)
-  let r := s.reqs.length
-  let s2 ← step s1 (.dispatch r (i % 2))
+def stressEnd (s2 : State) (r : Nat) (seed i : Nat) : Option (State × String) :=
   match stressOutcome seed i with
   | "ok" => (endAttempt s2 r .ok).map (·, "ok")
   | "rst" => (endAttempt s2 r .upstreamErr).map (·, "err")
-  | "e5" => do
-    let s3 ← strikesN s2 r 1
-    (endAttempt s3 r .ok).map (·, "ok")
+  | "e5" =>
+    match strikesN s2 r 1 with
+    | none => none
+    | some s3 => (endAttempt s3 r .ok).map (·, "ok")
   | "hup" => (endAttempt s2 r .panic).map (·, "panic")
   | "pan" => (endAttempt s2 r .panic).map (·, "panic")
   | "her" => (endAttempt s2 r .handlerErr).map (·, "err")
   | _ => (endAttempt s2 r .clientAbort).map (·, "ok")
 
-def stressLoop (seed n : Nat) : Nat → Nat → State → CfgId → List String → Option (State × CfgId × List String)
+/-- one request from entry to return, on Host object `i % 2` (static upstreams), or on the
+    `i % 2`-th upstream its loop iteration provisioned (dynamic source); returns the new state and
+    how the handler returned -/
+def stressReq (dyn : Bool) (s : State) (cur : CfgId) (seed i : Nat) : Option (State × String) := do
+  let s1 ← step s (.newReq cur false)
+  let r := s.reqs.length
+  if dyn then
+    let h := s1.cfgs.length
+    let s2 ← step s1 (.newIter r)
+    let s3 ← stores s2 h [0, 1]
+    let hs ← s3.cfgs[h]?
+    let u ← hs.ups[i % 2]?
+    let s4 ← step s3 (.dispatch r u.2)
+    let (s5, res) ← stressEnd s4 r seed i
+    let s6 ← unload s5 h [0, 1]
+    pure (s6, res)
+  else
+    let s2 ← step s1 (.dispatch r (i % 2))
+    stressEnd s2 r seed i
+
+def stressParamsD (dyn : Bool) : Params := { stressParams with dynamic := dyn }
+
+def stressKeys (dyn : Bool) : List Key := if dyn then [] else [0, 1]
+
+def stressLoop (dyn : Bool) (seed n : Nat) : Nat → Nat → State → CfgId → List String → Option (State × CfgId × List String)
   | 0, _, s, cur, acc => some (s, cur, acc)
   | fuel + 1, i, s, cur, acc =>
     if i == n / 2 && cur == 0 then
       -- the reload that keeps both upstreams
-      match step s (.newCfg stressParams) with
+      match step s (.newCfg (stressParamsD dyn)) with
       | none => none
       | some s1 =>
-        match stores s1 1 [0, 1] with
+        match stores s1 s.cfgs.length (stressKeys dyn) with
         | none => none
         | some s2 =>
-          match unload s2 0 [0, 1] with
+          match unload s2 0 (stressKeys dyn) with
           | none => none
           | some s3 =>
-            match stressReq s3 1 seed i with
+            match stressReq dyn s3 s.cfgs.length seed i with
             | none => none
-            | some (s4, res) => stressLoop seed n fuel (i + 1) s4 1 (acc ++ [res])
+            | some (s4, res) => stressLoop dyn seed n fuel (i + 1) s4 s.cfgs.length (acc ++ [res])
     else
-      match stressReq s cur seed i with
+      match stressReq dyn s cur seed i with
       | none => none
-      | some (s1, res) => stressLoop seed n fuel (i + 1) s1 cur (acc ++ [res])
+      | some (s1, res) => stressLoop dyn seed n fuel (i + 1) s1 cur (acc ++ [res])
 
 def sumOver (f : Nat → Int) (n : Nat) : Int := (List.range n).foldl (fun a o => a + f o) 0
 
-def handleStress (ns seeds : String) : String :=
+def handleStress (dyn : Bool) (ns seeds : String) : String :=
   match num ns, num seeds with
   | some n, some seed =>
     if n < 1 || n > 64 then "bad-op" else
-    match step init (.newCfg stressParams) with
+    match step init (.newCfg (stressParamsD dyn)) with
     | none => "bad-op"
     | some s0 =>
-      match stores s0 0 [0, 1] with
+      match stores s0 0 (stressKeys dyn) with
       | none => "bad-op"
       | some s1 =>
-        match stressLoop seed n n 0 s1 0 [] with
+        match stressLoop dyn seed n n 0 s1 0 [] with
         | none => "bad-op"
         | some (s2, cur, res) =>
-          match unload s2 cur [0, 1] with
+          match unload s2 cur (stressKeys dyn) with
           | none => "bad-op"
           | some s3 =>
             "n=" ++ toString n ++
@@ -251,13 +273,15 @@ def handleStress (ns seeds : String) : String :=
             " dec=" ++ toString ((s2.reqs.map (·.hist.length)).foldl (· + ·) 0) ++
             " fail=" ++ toString s2.log.length ++
             " forget=" ++ toString (((settle s3).log.filter (·.st == FSt.forgotten)).length) ++
-            " end=" ++ toString (sumOver s2.inflight s2.nextHost) ++ "/" ++ toString (sumOver (settle s3).fails s3.nextHost)
+            " end=" ++ toString (sumOver s2.inflight s2.nextHost) ++ "/" ++ toString (sumOver (settle s3).fails s3.nextHost) ++
+            " pool=" ++ toString (((List.range 2).filter fun k => (s3.pool k).isSome).length)
   | _, _ => "bad-op"
 
 def handle : List String → String
   | ["sched", k, steps] => handleSched k steps
   | ["schedcf", k, steps] => handleSched k steps   -- same schedule, configuration delivered as Caddyfile
-  | ["stress", n, seed] => handleStress n seed
+  | ["stress", n, seed] => handleStress false n seed
+  | ["stressdyn", n, seed] => handleStress true n seed   -- the same, upstreams from a dynamic source
   | ["static", "defer"] => "defer-ok"
   | _ => "bad-op"
 
